@@ -1,4 +1,107 @@
+import os
+import re
+
 from orchestrate.common import run_check
+
+REPO = "/repo/scylla/src"
+MERGE_FNS = {"merge_metadata", "merge_client_routes_update", "merge_topology_update", "merge_up_hint", "merge_down_hint"}
+
+
+def census():
+    """Structure pins behind 'merging = appending, a production closure never clears the slot':
+    (1) Sender::modify is called at one place only (metadata worker, send_update_on);
+    (2) every closure handed to send_update / send_update_on is `|slot| MetadataUpdate::merge_*(slot, ..)`;
+    (3) the merge_* functions of update.rs are exactly the five of Model/MetaUpdate.v, each starts with
+        Self::slot_mut(slot), slot_mut is get_or_insert_with(Self::default), and nothing else in the
+        production part of update.rs touches the slot (no take / assignment)."""
+    bad = []
+    try:
+        worker = open(os.path.join(REPO, "cluster/metadata/worker.rs")).read()
+        update = open(os.path.join(REPO, "cluster/metadata/update.rs")).read()
+    except OSError as e:
+        return ["cannot read the anchored sources: %s" % e]
+    # (1)
+    calls = []
+    for dp, _, fns in os.walk(REPO):
+        for fn in fns:
+            if fn.endswith(".rs") and fn != "merge_channel.rs":
+                txt = open(os.path.join(dp, fn), errors="replace").read()
+                txt = txt.split("#[cfg(test)]")[0]
+                for m in re.finditer(r"\.modify\(", txt):
+                    calls.append((os.path.relpath(os.path.join(dp, fn), REPO), txt[max(0, m.start() - 30):m.end() + 10].strip()))
+    if [c for c in calls if c[0] != "cluster/metadata/worker.rs"] or len(calls) != 1 or "updates.modify(f)" not in calls[0][1]:
+        bad.append("Sender::modify call sites changed: %r" % calls)
+    # (2)
+    prod = worker.split("#[cfg(test)]")[0]
+    for m in re.finditer(r"send_update(?:_on)?\(", prod):
+        head = prod[max(0, m.start() - 4):m.start()]
+        tail = prod[m.end():m.end() + 160]
+        if head.endswith("fn ") or tail.lstrip().startswith("&mut self.updates, f)"):
+            continue  # the two definitions and the forwarding call
+        if not re.match(r"\s*(updates,\s*)?\|slot\|\s*\{?\s*MetadataUpdate::merge_\w+\(slot\b", tail):
+            bad.append("a closure passed to send_update is not a MetadataUpdate::merge_* call: %r" % tail[:80])
+    # (3)
+    uprod = update.split("#[cfg(test)]")[0]
+    fns = set(re.findall(r"pub\(crate\) fn (merge_\w+)\(\s*slot: &mut Option<Self>", uprod))
+    if fns != MERGE_FNS:
+        bad.append("merge functions of MetadataUpdate changed: %r (model has %r)" % (sorted(fns), sorted(MERGE_FNS)))
+    for name in fns:
+        body = uprod[re.search(r"pub\(crate\) fn %s\(\s*slot:" % name, uprod).start():]
+        body = body[body.index("{") + 1:][:200]
+        if not re.match(r"\s*(let update = )?Self::slot_mut\(slot\)", body):
+            bad.append("%s does not start with Self::slot_mut(slot)" % name)
+    if not re.search(r"fn slot_mut\(slot: &mut Option<Self>\) -> &mut Self \{\s*slot\.get_or_insert_with\(Self::default\)\s*\}", uprod):
+        bad.append("MetadataUpdate::slot_mut is no longer slot.get_or_insert_with(Self::default)")
+    if re.search(r"\bslot\.take\(|\*slot\s*=[^=]|\bslot\s*=\s*None", uprod):
+        bad.append("update.rs takes from / assigns to the slot directly")
+    return bad
+
+
+def _kind(lines, k):
+    return [ln for ln in lines if ln.startswith(k + " ")]
+
+
+def post(lines, verdicts):
+    out = [("diff", "census", "diff census: " + b) for b in census()]
+    # environment: scenarios that could not be set up / a stress run that finished only when repeated
+    env = [ln for ln in lines if "| skip-env" in ln]
+    e2e = _kind(lines, "Z") + _kind(lines, "S")
+    if len(env) > max(3, len(e2e) // 50):
+        out.append(("diff", env[0], "diff tie not exercised: %d of %d S/Z scenarios did not run (%s)"
+                    % (len(env), len(e2e), env[0].split("|", 1)[1].strip()[:80])))
+    # per-kind floors: the evidence must not claim what was not exercised
+    floors = {"X": 100000, "Y": 50000, "U": 100000, "Q": 1000, "S": 4, "Z": 6}
+    for k, n in floors.items():
+        have = [ln for ln in _kind(lines, k) if "| skip-env" not in ln]
+        if len(have) < n:
+            out.append(("diff", k, "diff tie not exercised: %d cases of kind %s, floor %d" % (len(have), k, n)))
+    eager = sum(1 for ln in _kind(lines, "Y") if ",!" in ln)
+    if eager < 10000:
+        out.append(("diff", "Y", "diff tie not exercised: only %d eager-waker scripts contain a poll made by the waker" % eager))
+    merged = 0
+    for ln in _kind(lines, "Z"):
+        f = ln.split("|")[0].split()
+        if len(f) == 5 and f[4] == "1":
+            for tok in ln.split("|", 1)[1].strip().split(","):
+                p = tok.split("/")
+                if len(p) == 6 and int(p[0], 16) >= 3 and int(p[5], 16) >= 1:
+                    merged += 1
+    if merged < 2:
+        out.append(("diff", "Z", "diff tie not exercised: %d busy-consumer rounds in which refreshes were answered together" % merged))
+    twoF = sum(1 for ln in _kind(lines, "U") if re.search(r"[FG][^k]*[FG]", ln.split("|")[0][2:]))
+    if twoF < 10000:
+        out.append(("diff", "U", "diff tie not exercised: only %d U scripts merge two full fetches with responses before a take" % twoF))
+    return out
+
+
+def extra_coverage(lines, verdicts):
+    return {
+        "skip_env": sum(1 for ln in lines if "| skip-env" in ln),
+        "eager_waker_scripts_with_a_poll_by_the_waker": sum(1 for ln in _kind(lines, "Y") if ",!" in ln),
+        "update_scripts_merging_two_full_fetches_with_responses": sum(
+            1 for ln in _kind(lines, "U") if re.search(r"[FG][^k]*[FG]", ln.split("|")[0][2:])),
+        "census_findings": census(),
+    }
 
 SPEC = {
     "pid": "C19",
@@ -18,7 +121,10 @@ SPEC = {
              "adds a node to the mock cluster and issues 1/4/16 concurrent Session::refresh_metadata calls, all must be "
              "answered Ok and get_cluster_state must show the mock's node count; non-trivial = scripts with at least one "
              "poll and one merge, and all S cases; distinct = distinct case lines"),
-    "nontrivial": lambda ln: ln.startswith("S") or ln.startswith("Z") or ("P" in ln.split("|")[0][2:] and "M" in ln.split("|")[0][2:]),
+    "post": post,
+    "extra_coverage": extra_coverage,
+    "min_cases": {"quick": 500000, "thorough": 3000000},
+    "nontrivial": lambda ln: "| skip-env" not in ln and (ln[0] in "SZU") or (ln[0] in "XYQ" and "P" in ln.split("|")[0][2:] and "M" in ln.split("|")[0][2:]),
     "trusted_base": [
         "hook scylla::cluster::metadata::verif_merge_channel (newtype pass-throughs around Sender/Receiver/merge_channel)",
         "tokio::sync::Notify is modelled for ONE waiter (notify_one / notified+enable / poll / drop); the model is "
